@@ -1,6 +1,7 @@
 import NomtModel.Core.Complete
 import NomtModel.Core.TermHasher
 import NomtModel.Store.ProbeInv
+import NomtModel.Store.TableCheck
 import NomtModel.Store.ConstantsAlloc
 /-!
 # C05 — Every key has a verifying, truthful path proof
@@ -164,6 +165,37 @@ theorem T5_5_occupied_counter (hash : Nat → Nat) (lim : Nat) (T : Table) (hn :
       occupied T + (if find hash T p = none ∧ (alloc hash lim T p).isSome then 1 else 0) ∧
     occupied (Probe.step hash lim T (.remove p)) + (if (find hash T p).isSome then 1 else 0) = occupied T :=
   ⟨occupied_step_insert hn p, occupied_step_remove p⟩
+
+/-- T5.5 **lookups on an accepted image**: if the image monitor `wfTable` — the check the driver runs
+on the real `ht` file of every snapshot — accepts, then in the table the file denotes
+(`tableOfImage`: decoded meta bytes, labels of the data pages, hash = seeded XXH3-64 of the label)
+the mirrored lookup of ANY page id `p` answers bucket `b` iff `b` is full, carries the tag of `p`'s
+hash and is labelled `p`; it answers "absent" iff no full bucket is labelled `p`.  So every stored
+merkle page is found and nothing else is; and the `full` count the monitor reports (compared with
+`hash_table_utilization().occupied` by the harness) is the occupancy of that table. -/
+theorem T5_5_lookup_on_accepted_image (ht : ByteArray) (m : Meta) (seed : Nat) (st : TableStats)
+    (h : wfTable ht m seed = .ok st) (p fuel : Nat) (hf : 2 * m.bitboxNumPages + 2 ≤ fuel) :
+    Probe.Inv (hashLabel seed) (tableOfImage ht m) ∧ NoDup (tableOfImage ht m) ∧
+    (tableOfImage ht m).n = m.bitboxNumPages ∧ st.full = occupied (tableOfImage ht m) ∧
+    (∀ b, lookup (hashLabel seed) (tableOfImage ht m) p fuel = some (some b) ↔
+      slotAt (tableOfImage ht m).slots b = .full (tagOf (hashLabel seed p)) ∧ (tableOfImage ht m).label b = p) ∧
+    (lookup (hashLabel seed) (tableOfImage ht m) p fuel = some none ↔
+      ∀ b, ¬ (isFull (slotAt (tableOfImage ht m).slots b) = true ∧ (tableOfImage ht m).label b = p)) := by
+  obtain ⟨hn, _, hI, hD, hfull⟩ := wfTable_inv h
+  have hf' : 2 * (tableOfImage ht m).n + 2 ≤ fuel := by rw [hn]; exact hf
+  obtain ⟨c1, c2⟩ := T5_5_lookup_correct (hashLabel seed) (tableOfImage ht m) p fuel hf' hI hD
+  refine ⟨hI, hD, hn, hfull, ?_, c2⟩
+  intro b
+  constructor
+  · intro e; exact T5_5_lookup_label_check (hashLabel seed) _ p fuel b hf' e
+  · intro ⟨hs, hl⟩
+    exact (c1 b).mpr ⟨by rw [hs]; rfl, hl⟩
+
+/-- the pieces of the monitor on tiny inputs (the monitor as a whole is exercised on the real `ht`
+file of every snapshot of every C16 / C19 run) -/
+example : (probeReaches #[.full 0, .tombstone, .empty, .full 1] 4 0 3).toOption = some () ∧
+    (probeReaches #[.full 0, .empty, .empty, .full 1] 4 0 3).toOption = none ∧
+    firstAdjDup [1, 2, 2, 3] = some 2 ∧ firstAdjDup [1, 2, 3] = none := by decide
 
 /-! ### non-vacuity: a 10-bucket table (not a power of two) and an 8-bucket table
 
